@@ -81,6 +81,15 @@ func main() {
 			*tier = t
 		}
 		os.Exit(runCheck(*prop, *tier, *seed, *workers, *budget, *keep, *noGuard))
+	case "warm":
+		// build everything once so later checks hit a warm build cache
+		scratch := mkScratch()
+		_, err := prepare(scratch, true, true)
+		os.RemoveAll(scratch)
+		if err != nil {
+			fatal2("%v", err)
+		}
+		os.Exit(0)
 	case "replay":
 		if len(os.Args) < 3 {
 			fatal2("usage: simcheck replay <file>")
